@@ -251,7 +251,7 @@ class _Builder:
         if isinstance(n, ast.Attribute):
             return A(self.ev(n.value), n.attr)
         if isinstance(n, ast.Subscript):
-            return ("sub", self.ev(n.value), self.ev(n.slice))
+            return simplify(("sub", self.ev(n.value), self.ev(n.slice)))
         if isinstance(n, ast.Slice):
             return ("slice",) + tuple(None if x is None else self.ev(x) for x in (n.lower, n.upper, n.step))
         if isinstance(n, ast.Call):
@@ -406,6 +406,11 @@ def simplify(s: Sym) -> Sym:
                 return C(b[1][sl])
             except Exception:
                 return s
+        if b[0] == "dictd" and i[0] == "c" and all(k[0] == "c" for k, _ in b[1]):
+            for k, v in b[1]:
+                if k[1] == i[1] and type(k[1]) is type(i[1]):
+                    return v
+            return ("call", N("$KeyError"), (i,), ())
         if b[0] in ("tuple", "list") and i[0] == "c" and isinstance(i[1], int):
             try:
                 return b[1][i[1]]
